@@ -808,6 +808,10 @@ fn try_complete_cycle_head(
             .origin()
             .inputs()
             .eq(completed_query.revisions.origin().inputs());
+        let heads: Vec<(u32, u64)> = cycle_heads
+            .iter()
+            .map(|head| crate::verif_hooks::key_pair(head.database_key_index))
+            .collect();
         move |nested: bool, finalized: bool| {
             crate::verif_hooks::trace(crate::verif_hooks::TraceEvent::CycleHead {
                 ingredient: me.ingredient_index().as_u32(),
@@ -818,6 +822,7 @@ fn try_complete_cycle_head(
                 value_converged,
                 metadata_converged,
                 deps_stable,
+                heads: heads.clone(),
             });
         }
     };
